@@ -5,7 +5,9 @@
 (*         new generator (also: a node restarted with id `min`)            *)
 (*   gen   {now, id}   one sequential call: clock reading given to the     *)
 (*                     call (hard) / timestamp argument (nano), result     *)
-(*   clk   {now}       the injected clock now reads `now`                  *)
+(*   clk   {now}       the injected clock now reads `now` (free-running    *)
+(*                     runs log min(old, new) when a change begins and new *)
+(*                     when it is complete)                                *)
 (*   inv   {t}         thread t is about to call (logged before the call)  *)
 (*   res   {t, id}     thread t's call returned id (logged after return)   *)
 (* All 64-bit values are 4 limbs of 16 bits, most significant first.       *)
